@@ -405,7 +405,8 @@ def suite_bits(tier: str, seed: int, mult: int) -> SuiteResult:
 
 # ------------------------------------------------------------------------------ C10
 def gen_summary(rng: random.Random, F: int, n: int, p: list[float]) -> list[int]:
-    return [sum(1 for _ in range(min(n, 60)) if rng.random() < pi) * (n // min(n, 60)) if n > 60 else
+    # above 60 members: 60 draws scaled to n (a saturated column, p = 1, stays saturated: k = n)
+    return [min(n, (sum(1 for _ in range(60) if rng.random() < pi) * n + 59) // 60) if n > 60 else
             sum(1 for _ in range(n) if rng.random() < pi) for pi in p]
 
 
@@ -422,8 +423,9 @@ def suite_merge(tier: str, seed: int, mult: int) -> SuiteResult:
         order = []
         for _ in range(n_cases):
             F = rng.randint(1, 24)
-            proto = [rng.choice([0.05, 0.5, 0.95]) for _ in range(F)]
-            n_old = rng.choice([1, 1, 2, 3, 5, 17, 255, 256, 999, 1000, 1001, 5000])
+            # saturated columns (p = 1) reach the counter width exactly at n = 255 / 65535
+            proto = [rng.choice([0.05, 0.5, 0.95, 1.0, 0.0] if rng.random() < 0.3 else [0.05, 0.5, 0.95]) for _ in range(F)]
+            n_old = rng.choice([1, 1, 2, 3, 5, 17, 254, 255, 255, 256, 999, 1000, 1001, 5000, 65534, 65535])
             n_nom = rng.choice([1, 1, 1, 2, 7, 300])
             noise = rng.choice([0.0, 0.1, 0.4])
             p_old = proto
@@ -452,6 +454,8 @@ def suite_merge(tier: str, seed: int, mult: int) -> SuiteResult:
             new_ls = np.add(o, m, dtype=min_safe_uint(new_n))
             a1 = bool(fn(thr, new_ls, new_n, o, m, n_old, n_nom))
             a2 = bool(fn(thr, new_ls, new_n, o, m, n_old, n_nom))
+            # the same argument VALUES held in uint64 arrays (what the tests and the C++ kernels use)
+            a64 = bool(fn(thr, new_ls.astype(np.uint64), new_n, o.astype(np.uint64), m.astype(np.uint64), n_old, n_nom))
             mv = d.cmd(f"ACCEPT crit={crit} tol={show_rat(tol)} thr={show_rat(thr)} oldn={n_old} oldls={show_nats(',', old)} "
                        f"nomn={n_nom} nomls={show_nats(',', nom)}")
             res.evaluations += 1
@@ -467,10 +471,13 @@ def suite_merge(tier: str, seed: int, mult: int) -> SuiteResult:
             cnt["laws_checked"] += 1
             if a1 != a2:
                 res.failures.append({"signature": f"C10:{crit}-not-a-pure-function", "what": "two identical calls disagree", "case": case})
+            if a1 != a64:
+                res.failures.append({"signature": f"C10:{crit}-depends-on-the-dtype-of-the-sums",
+                                     "what": f"narrowest dtypes -> {a1}, uint64 -> {a64}", "case": case})
             if crit == "never-merge" and a1:
                 res.failures.append({"signature": "C10:never-merge-accepted", "what": "never-merge returned True", "case": case})
-            isim = float(sim.jt_isim_from_sum(new_ls, new_n))
-            rc = float(sim.jt_isim_radius_compl_from_sum(new_ls, new_n))
+            isim = float(sim.jt_isim_from_sum(new_ls.astype(np.uint64), new_n))
+            rc = float(sim.jt_isim_radius_compl_from_sum(new_ls.astype(np.uint64), new_n))
             stat = rc if crit in ("radius", "tolerance-radius") else isim
             if a1 and crit != "never-merge" and not stat >= thr:
                 res.failures.append({"signature": f"C10:{crit}-accepted-below-threshold", "what": f"stat={stat} thr={thr}", "case": case})
@@ -482,7 +489,8 @@ def suite_merge(tier: str, seed: int, mult: int) -> SuiteResult:
                 if n_old == 1 and a1 != (stat >= thr):
                     res.failures.append({"signature": f"C10:{crit}-singleton-old-cluster-not-base-criterion", "what": f"accept={a1} stat={stat} thr={thr}", "case": case})
                 if n_old >= 1000 and stat >= thr:
-                    ostat = float(sim.jt_isim_radius_compl_from_sum(o, n_old) if crit == "tolerance-radius" else sim.jt_isim_from_sum(o, n_old))
+                    o64 = o.astype(np.uint64)
+                    ostat = float(sim.jt_isim_radius_compl_from_sum(o64, n_old) if crit == "tolerance-radius" else sim.jt_isim_from_sum(o64, n_old))
                     if a1 != (stat >= ostat):
                         res.failures.append({"signature": f"C10:{crit}-slack-not-zero-from-1000", "what": f"accept={a1} new={stat} old={ostat}", "case": case})
                 if a1:
